@@ -383,6 +383,8 @@ def run(tier, seed, result):
                              {'replay': {'module': 'mc.checks.c11',
                                          'func': 'replay_growth',
                                          'args': [is_async]}})
+    from . import c11_sched
+    notes.append(c11_sched.run(tier, seed, result))
     result.cov['evaluations'] = result.cov.get('transitions', 0)
     result.cov['distinct_nontrivial'] = result.cov.get('states', 0)
     result.sample({'history': [['connect', 0, '/', 'accept'],
@@ -401,7 +403,10 @@ def run(tier, seed, result):
              'malformed frames, stale-sid API calls, wrong-namespace calls) '
              'x every ending cause at every position x "next handler '
              'invocation raises" faults; non-trivial/distinct = canonical '
-             'generic snapshot of server+manager',
+             'generic snapshot of server+manager; E2: every interleaving '
+             'of one client\'s traffic with server disconnect() and '
+             'transport loss on AsyncServer (handlers and transport writes '
+             'suspended), ending in the fresh-server comparison',
         explanation=' | '.join(notes) + (
             '' if closure else f' | depth cap {depth} reached: all histories '
             'up to that depth were covered'),
